@@ -58,6 +58,7 @@ def cases(ctx):
             "via": str(rng.choice(["ctor", "ctor", "from_labels", "swap2", "sorted", "boot_replacement", "boot_smoothing", "boot_single_pass", "boot_proportion",
                                    "boot_by_label", "group_item", "sample_swap"])),
             "_seed": int(rng.integers(1 << 31)),
+            "pos_form": str(rng.choice(gen.FORMS)), "neg_form": str(rng.choice(gen.FORMS)), "thr_form": str(rng.choice(gen.FORMS)),
         }
 
 
@@ -91,14 +92,20 @@ def execute(ctx, case):
     pos, neg = case["pos"], case["neg"]
     ep, en, sc, ec, thr = case["ep"], case["en"], case["sc"], case["ec"], case["thr"]
     via = case["via"]
+    # same values, different containers / memory layouts (lists, tuples, read-only, strided, Fortran order)
+    pos, neg = gen.apply_form(pos, case.get("pos_form")), gen.apply_form(neg, case.get("neg_form"))
+    if isinstance(thr, np.ndarray):
+        thr = gen.apply_form(thr, case.get("thr_form"))
+        if isinstance(thr, tuple):
+            thr = list(thr)
     kw = dict(nb_easy_pos=ep, nb_easy_neg=en, score_class=sc, equal_class=ec)
     if via == "from_labels":
         lab_pos = case.get("pos_label", 1)
         labels = np.concatenate([np.full(len(pos), lab_pos), np.zeros(len(neg), dtype=int)])
-        allv = np.concatenate([pos, neg]) if len(pos) + len(neg) else np.zeros(0)
+        allv = np.concatenate([np.asarray(pos), np.asarray(neg)]) if len(pos) + len(neg) else np.zeros(0)
         s = Scores.from_labels(labels, allv, pos_label=lab_pos, **kw)
     elif via == "sorted":
-        s = Scores(np.sort(pos), np.sort(neg), is_sorted=True, **kw)
+        s = Scores(np.sort(np.asarray(pos)), np.sort(np.asarray(neg)), is_sorted=True, **kw)
     else:
         s = Scores(pos, neg, **kw)
     if via == "swap2":
@@ -146,7 +153,7 @@ def execute(ctx, case):
     tarr = np.asarray(thr, dtype=float)
     if len(pos) + len(neg) <= 30 and tarr.size <= 40:
         labels = np.concatenate([np.ones(len(pos), dtype=int), np.zeros(len(neg), dtype=int)])
-        allv = np.concatenate([pos, neg]) if len(pos) + len(neg) else np.zeros(0)
+        allv = np.concatenate([np.asarray(pos), np.asarray(neg)]) if len(pos) + len(neg) else np.zeros(0)
         try:
             pw = pointwise_cm(labels, allv, thr, score_class=sc, equal_class=ec)
         except Exception as e:  # would be C10's business too; here it blocks the relation
